@@ -505,3 +505,4 @@ add("C11", lambda tier: [static_job()])
 add("C20", lambda tier: start_jobs(tier, 1, F=0, types=(1,)))
 # C03's "the child receives exactly the argument strings passed" on Windows goes through the command line
 add("C03", lambda tier: [win_job(1, "argv-2x2", 2, 2)])
+add("C15", lambda tier: start_jobs(tier, 0, types=(1, 3)))
